@@ -23,6 +23,7 @@ class PathCtx:
         self.counts = Counter()  # kind -> evaluated
         self.skip = set(skip_kinds)
         self.sample = None
+        self.stats = Counter()   # solver work done outside the path solver (odex identity prover, Taylor coefficient prover)
 
     @property
     def eng(self):
@@ -180,8 +181,15 @@ def explore_config(args):
     max_validate = opts.get('max_validate', 40)
     try:
         def fn(e):
+            from . import odex as _odex
             h = PathCtx(cfg, skip_kinds=failed_kinds)
-            out = mod.run_path(h, cfg)
+            before = Counter(_odex.STATS)
+            try:
+                out = mod.run_path(h, cfg)
+            finally:
+                now = Counter(_odex.STATS)
+                now.subtract(before)
+                h.stats.update({k: v for k, v in now.items() if v})
             return h, out
         for status, r in eng.explore(fn, max_paths=cfg.get('max_paths', opts.get('max_paths', MAX_PATHS_DEFAULT))):
             if status == 'cap':
@@ -195,6 +203,7 @@ def explore_config(args):
             h, out = r
             res['paths'] += 1
             res['counts'].update(h.counts)
+            res.setdefault('stats', Counter()).update(h.stats)
             for (kind, detail, values, decisions) in h.failures:
                 failed_kinds.add(kind)
                 conf = replay_failure(mod, cfg, kind, values, decisions)
@@ -237,6 +246,7 @@ def explore_config(args):
     res['solver_s'] = eng.solver_s
     res['wall_s'] = _now() - t0
     res['aborted'] = dict(res['aborted'])
+    res['stats'] = dict(res.get('stats', {}))
     res['counts'] = dict(res['counts'])
     return res
 
@@ -335,6 +345,7 @@ def finish(mod, prop, tier, seed, cfgs, results, t0, extra_cov=None):
     paths = validated = nchecks = 0
     solver_s = 0.0
     post_obl = post_ok = 0
+    other = Counter()
     samples = []
     for r in results:
         paths += r['paths']
@@ -343,6 +354,7 @@ def finish(mod, prop, tier, seed, cfgs, results, t0, extra_cov=None):
         solver_s += r['solver_s']
         counts.update(r['counts'])
         aborted.update(r['aborted'])
+        other.update(r.get('stats', {}))
         if r['inconclusive']:
             inconclusive.append({'cfg': r['cfg'], 'why': r['inconclusive']})
         if r['capped']:
@@ -389,7 +401,8 @@ def finish(mod, prop, tier, seed, cfgs, results, t0, extra_cov=None):
             'obligations_by_kind': dict(counts),
             'obligations': obligations,
             'discharged': obligations - sum(1 for _ in violations) - sum(h['n'] for h in known_hits.values()),
-            'solver_queries': nchecks,
+            'solver_queries': nchecks + int(other.get('queries', 0)),
+            'solver_queries_outside_path_solver': dict(other),
             'solver_seconds': round(solver_s, 2),
             'unknown_or_inconclusive': len(inconclusive),
             'traces_validated_against_impl': validated,
